@@ -313,6 +313,10 @@ FILTER_SPECS = [
     lambda d: {"name": "truncate_count", "args": [], "kwargs": {"max_count": d(st.integers(0, 12))}},
     lambda d: {"name": "truncate_count", "args": [d(st.integers(0, 12))], "kwargs": {}},
     lambda d: {"name": "remove_duplicates", "args": [], "kwargs": {}},
+    lambda d: {"name": "remove_duplicates", "args": [], "kwargs": d(st.sampled_from([
+        {"minimum_difference_connection_list": None, "minimum_difference_solution": 1},
+        {"minimum_difference_connection_list": 1, "minimum_difference_solution": None},
+        {"minimum_difference_connection_list": None, "minimum_difference_solution": None}]))},
     lambda d: {"name": "remove_duplicates_fast", "args": [], "kwargs": {}},
     lambda d: {"name": "strip_generation_meta", "args": [], "kwargs": {}},
     lambda d: {"name": "collect_generation_meta", "args": [], "kwargs": {}},
@@ -329,6 +333,9 @@ def filter_list(draw, max_size=3, allow=None):
         if allow is not None and f["name"] not in allow:
             continue
         out.append(f)
+        if draw(st.integers(0, 3)) == 0:
+            # the same filter recorded twice in a row (not every filter is idempotent)
+            out.append({"name": f["name"], "args": list(f["args"]), "kwargs": dict(f["kwargs"])})
     return out
 
 
@@ -379,7 +386,7 @@ def dataset_spec(draw, n_lo=2, n_hi=6, mazes_lo=0, mazes_hi=8, ctors=None, with_
 
 
 @st.composite
-def big_int8_case(draw, sizes=(33, 40, 63, 64, 65, 100, 127), shortest=True):
+def big_int8_case(draw, sizes=(127, 65, 100, 64, 40, 33, 63), shortest=True):
     """a maze on a grid large enough for int8 coordinate arithmetic to matter (2*c+1, c1+c2, unit*c beyond 127): a serpentine corridor
     plus drawn extra connections; the solution is one of the model's shortest paths between two far cells (or, with shortest=False,
     possibly the corridor itself - the long way round). The case asks for int8 coordinate storage, the dtype the library's
